@@ -39,9 +39,9 @@ def main():
     man = dict(
         version=1,
         setup_cmd='python3 vt/selftest.py',
-        hooks=dict(guard='OMPL_VERIF', enable='checks compile /repo sources with -DOMPL_VERIF (clang++-14 -emit-llvm); no hook commits are needed so far',
+        hooks=dict(guard='OMPL_VERIF', enable='checks compile /repo sources with -DOMPL_VERIF (clang++-14 -emit-llvm); one add-only hook: the start-state diagnostics (std::stringstream) of PlannerInputStates::nextStart are left out under the guard',
                    baseline_off_cmd='cmake --build /repo/_build -j16 && ctest --test-dir /repo/_build -j8 --timeout 900',
-                   source_commits=[], add_only=True),
+                   source_commits=['168716105'], add_only=True),
         engines=[dict(name='ir2c+cbmc', path='vt/pipeline.py', serves_properties=[c['property_id'] for c in checks],
                       kind_free_text='clang++-14 -O1 -emit-llvm on the real sources + harness, llvm-link/opt pruning, own LLVM-IR->C translator (vt/ir2c.py), CBMC 6.11 with cadical/kissat/minisat')],
         checks=checks,
